@@ -110,6 +110,11 @@ def run(ck, tier):
             ck.violation("%s: %s" % (why, json.dumps(e)), {"kind": "morass-event", "event": e, "why": why,
                                                           "cmd": "vharness morass faults|random -seed %d" % ck.seed})
         ck.samples.append({"source": "single-fault run", "event": inj[0] if inj else fevs[0]})
+        # vacuity guard: every kind of provoked failure must actually make some call fail on a tree that holds
+        if not ck.violations:
+            for site in ("tempfile", "encode", "sync", "seek", "decode", "pullread"):
+                if not any(e["site"] == site and e["injected"] and e["reported"] for e in fevs):
+                    raise vlib.Infra("fault site %s never produced a reported failure: the injection is ineffective" % site)
         ck.nontrivial = len(nontriv)
     finally:
         shutil.rmtree(work, ignore_errors=True)
